@@ -193,6 +193,12 @@ def _r074(ctx: Ctx) -> None:
         [0, 0, 0, 1000],            # pure Z at p = 1
         [500, 0, 500, 0],
     ]
+    if ctx.tier == 'thorough':
+        import random as _r
+        rr = _r.Random(ctx.seed)
+        for _ in range(40):
+            cuts = sorted(rr.randint(0, 1000) for _ in range(3))
+            dists.append([cuts[0], cuts[1] - cuts[0], cuts[2] - cuts[1], 1000 - cuts[2]])
     n_cases = 0
     bad = None
     used = {'rng': 0, 'global': 0}
